@@ -84,6 +84,8 @@ def r08_1(ctx, prog, crate, rec):
                 # the wrapper closure: forwards barrier and flag unchanged
                 for c in sb.live_calls():
                     if prog.bodies.get((sb.crate, c.callee, -1)) in bodies:
+                        if sb.arg_count < 2 and len(c.args) < 2:
+                            continue    # a wrapper of a flag-less step (separate start / end callables): nothing to forward
                         flag = {s.label() for s in sb.prov.op_src(c.args[1])} if len(c.args) > 1 else set()
                         ctx.check(flag == {"param:" + sb.param_name(2)}, "R08.1", [sb.path, "forwards-flag"], "flag forwarded as %s" % sorted(flag), c.line())
                 continue
